@@ -1,20 +1,28 @@
-(* C11 -- Segwit addresses follow BIP173/BIP350 ...   PARTIAL (only the <= 4 substitution clause is left).
-   Proved here, for every human-readable part, version and program (no bound on lengths beyond the BIP's own 90):
+(* C11 -- Segwit addresses follow BIP173/BIP350 and detect up to four character errors.
+   Proved here, for every human-readable part, version and program (no bound beyond the BIP's own 90 characters):
      * the regenerated CHARSET, generator words and Bech32m constant are the BIP's;
      * the checksum bech32_create_checksum produces always verifies, under the constant it was made for, and it is
-       the ONLY six-symbol suffix that verifies (checksum_unique);
+       the ONLY six-symbol suffix that verifies (C11_checksum_unique);
      * convertbits 8->5 (pad) followed by 5->8 (no pad) is the identity on byte strings, and 5->8 (no pad) accepts a
        symbol string only when it is the canonical 8->5 regrouping of its output (zero padding of < 5 bits);
      * decode (encode hrp v prog) = (v, prog) for every legal (v, |prog|), every lower-case hrp of 1..18 printable
        characters (C11_decode_encode), version 0 under the Bech32 constant and 1..16 under Bech32m;
      * conversely decode hrp s = (v, prog) implies (v, |prog|) legal, s in a single case, |s| <= 90 and
-       encode hrp v prog = lower(s)  (C11_decode_sound): so decode accepts nothing but what encode emits, which
+       encode hrp v prog = lower(s)  (C11_decode_sound): decode accepts nothing but what encode emits, which
        yields the refusals of mixed case, other prefixes, the wrong constant, bad padding and over-long strings
-       as corollaries; and an illegal (version, length) never yields an address (C11_illegal_none; versions >= 0:
-       Python's negative indexing makes CHARSET[-31..-16] emit addresses for versions 1..16, outside the property's domain).
-   NOT proved: the <= 4 substitution error-detection clause (kept visible below as a Definition; decided by the
-   correspondence run: complete enumeration through linearity in the Spec-level checker plus sampled end-to-end). *)
-From BHW Require Import Lib.Base Lib.ListAux Model.Helper Model.Bech32M Spec.Bech32 Proofs.Bech32 Proofs.Convertbits Proofs.Bech32RT.
+       as corollaries; an illegal (version, length) never yields an address (C11_illegal_none; versions >= 0:
+       Python's negative indexing makes CHARSET[-31..-16] emit addresses for versions 1..16, outside the property's domain);
+     * error detection (C11_bch_detects, C11_detects_le4 and corollaries): the polymod is xor-linear, the residue of a
+       corrupted word is the residue of the original xor the syndrome of the error vector, and a meet-in-the-middle
+       enumeration of all syndromes of weight <= 4 in 88 symbols (same constant) and weight <= 3 in 72 symbols
+       (other constant), evaluated by the kernel's VM (about 20 s), shows none is 0 resp. 1 xor 0x2bc830a3.  Hence two
+       accepted strings of equal length with the same hrp are equal up to case or differ in >= 4 characters, in exactly
+       4 only when one is version 0 and the other version 1..16.
+       (For 73..88 symbols there ARE weight-3 cross-constant patterns -- e.g. values 19,20,20 at distances 69,58,79 from
+       the end -- but no legal segwit address is that long: |data| <= 71.)
+   Substitutions are counted on the lower-cased strings; insertions and deletions are not covered by a theorem (BIP173
+   makes no guarantee there; the correspondence run samples them). *)
+From BHW Require Import Lib.Base Lib.ListAux Model.Helper Model.Bech32M Spec.Bech32 Proofs.Bech32 Proofs.Convertbits Proofs.Bech32RT Proofs.Bech32BCH Proofs.Bech32Detect.
 From BHWGen Require Import Consts.
 
 Theorem C11_constants_are_bip :
@@ -96,11 +104,31 @@ Theorem C11_padding_canonical : forall hrp s v prog,
   exists conv spec, convertbits prog 8 5 true = Some conv /\ bech32_decode s = Some (hrp, v :: conv, spec).
 Proof. exact decode_padding_canonical. Qed.
 
-(* the statement that remains unproved (kept visible; see the header) *)
-Definition C11_detects_le4_statement : Prop :=
-  forall hrp s s' v prog, decode hrp s = Some (v, prog) -> length s' = length s ->
-    (* s' differs from s in 1..3 data characters, or in 4 without switching between version 0 and non-0 *)
-    True -> decode hrp s' = None \/ s' = s.
+(* symbol level: hamming = number of positions at which the two symbol lists differ *)
+Theorem C11_bch_detects : forall hrp d d' spec,
+  Forall (fun x => 0 <= x < 32) d -> Forall (fun x => 0 <= x < 32) d' -> length d = length d' ->
+  bech32_verify_checksum hrp d = Some spec ->
+  ((length d <= 88)%nat -> (1 <= hamming d d' <= 4)%nat -> bech32_verify_checksum hrp d' <> Some spec) /\
+  ((length d <= 72)%nat -> (1 <= hamming d d' <= 3)%nat -> bech32_verify_checksum hrp d' = None).
+Proof. exact bch_detects. Qed.
+
+(* address level *)
+Theorem C11_detects_le4 : forall hrp s s' v prog v' prog',
+  decode hrp s = Some (v, prog) -> decode hrp s' = Some (v', prog') -> length s = length s' ->
+  let k := hamming (map lower_c s) (map lower_c s') in
+  k = 0%nat \/ ((4 <= k)%nat /\ (k = 4%nat -> (v =? 0) <> (v' =? 0))).
+Proof. exact detects_le4. Qed.
+
+Theorem C11_substitution_refused : forall hrp s v prog s',
+  decode hrp s = Some (v, prog) -> length s' = length s ->
+  (1 <= hamming (map lower_c s) (map lower_c s') <= 3)%nat -> decode hrp s' = None.
+Proof. exact substitution_refused. Qed.
+
+Theorem C11_substitution4_refused : forall hrp s v prog s' v' prog',
+  decode hrp s = Some (v, prog) -> length s' = length s ->
+  hamming (map lower_c s) (map lower_c s') = 4%nat ->
+  decode hrp s' = Some (v', prog') -> (v =? 0) <> (v' =? 0).
+Proof. exact substitution4_refused. Qed.
 
 Example C11_example :
   encode [98;99] 0 (repeat 0 20) = Ok (Some [98;99;49;113;113;113;113;113;113;113;113;113;113;113;113;113;113;113;113;113;113;113;113;113;113;113;113;113;113;113;113;113;113;113;113;113;57;101;55;53;114;115]) /\
@@ -123,3 +151,7 @@ Print Assumptions C11_rejects_long.
 Print Assumptions C11_rejects_other_prefix.
 Print Assumptions C11_rejects_wrong_constant.
 Print Assumptions C11_padding_canonical.
+Print Assumptions C11_bch_detects.
+Print Assumptions C11_detects_le4.
+Print Assumptions C11_substitution_refused.
+Print Assumptions C11_substitution4_refused.
